@@ -283,7 +283,7 @@ WrapD(buf) ==
 (* Action records (exactly what the harness logs):                           *)
 (*   [op "enc", v, n] [op "dec", v, m]           numbers as 4 bytes, big-endian *)
 (*   [op "encs", v, n, ex] [op "decs", v, s, ex]  tokens as byte codes          *)
-(*   [op "zip", b] [op "unz", x] [op "zipp", b, p]                              *)
+(*   [op "zip", b] [op "unz", blk] [op "zipp", b, p]                              *)
 (*   [op "wrap", b] [op "usnap", data]                                          *)
 (* Every call is a pure function of the instance configuration: no variable    *)
 (* changes, which is the history-independence part of the contract.            *)
@@ -295,7 +295,7 @@ ReplyOf(a) ==
     [] a.op = "zip"   -> [out |-> "ok", r |-> ZipD(a.b)]
     [] a.op = "zipp"  -> [out |-> "ok", r |-> a.p \o ZipD(a.b)]
     [] a.op = "wrap"  -> [out |-> "ok", r |-> WrapD(a.b)]
-    [] a.op = "unz"   -> LET d == SnDenoteW(a.x) IN
+    [] a.op = "unz"   -> LET d == SnDenoteW(a.blk) IN
                          [out |-> IF d.ok THEN "ok" ELSE "err", r |-> d.v, els |-> d.els]
     [] a.op = "usnap" -> LET d == Unwrap(a.data) IN
                          [out |-> IF d.ok THEN "ok" ELSE "err", r |-> d.v]
@@ -312,7 +312,7 @@ Acts ==
   [op : {"enc"}, v : VSet, n : NumSet] \cup [op : {"dec"}, v : VSet, m : NumSet]
   \cup [op : {"encs"}, v : VSet, n : NumSet, ex : BOOLEAN]
   \cup [op : {"decs"}, v : VSet, s : StrSet, ex : BOOLEAN]
-  \cup [op : {"zip"}, b : ByteStrs] \cup [op : {"unz"}, x : BlockSet]
+  \cup [op : {"zip"}, b : ByteStrs] \cup [op : {"unz"}, blk : BlockSet]
   \cup [op : {"zipp"}, b : ByteStrs, p : PrefSet]
   \cup [op : {"wrap"}, b : BufSet] \cup [op : {"usnap"}, data : DataSet]
 
@@ -343,10 +343,10 @@ NeverMisdecode ==
 (* whatever the compressor emits comes back                                            *)
 SnappyExact ==
   [][LET a == last' IN
-     /\ a.op = "unz" => /\ UnzOK(a.x, a.out, a.r)
-                        /\ a.out = "ok" /\ a.x # <<>> =>
-                             /\ Len(a.r) = Preamble(a.x).val
-                             /\ Tiles(a.els, a.r) /\ ElementsOK(a.x, a.els, a.r)
+     /\ a.op = "unz" => /\ UnzOK(a.blk, a.out, a.r)
+                        /\ a.out = "ok" /\ a.blk # <<>> =>
+                             /\ Len(a.r) = Preamble(a.blk).val
+                             /\ Tiles(a.els, a.r) /\ ElementsOK(a.blk, a.els, a.r)
      /\ a.op = "zip"  => ZipOK(a.b, a.out, a.r) /\ UnzOK(a.r, "ok", a.b)
      /\ a.op = "zipp" => ZipPOK(a.b, a.p, a.out, a.r)]_allvars
 
